@@ -128,7 +128,8 @@ package tls
 //@   loop 0 invariant known: forall j in 0..$k: jsGroupKnown(keyShareClientHello.ClientShares[j].Group)
 //@   loop 0 invariant len(e.KeyShares) >= $k
 //@   loop 0 invariant order: forall j in 0..$k: e.KeyShares[len(e.KeyShares) - $k + j].Group == jsGroupOf(keyShareClientHello.ClientShares[j].Group)
-//@   loop 0 invariant data: forall j in 0..$k: e.KeyShares[len(e.KeyShares) - $k + j].Data == keyShareClientHello.ClientShares[j].KeyExchange
+//@   loop 0 invariant data: forall j in 0..$k: keyShareClientHello.ClientShares[j].Group == "GREASE" ==> e.KeyShares[len(e.KeyShares) - $k + j].Data == keyShareClientHello.ClientShares[j].KeyExchange
+//@   loop 0 invariant nodata: forall j in 0..$k: keyShareClientHello.ClientShares[j].Group != "GREASE" ==> isnil(e.KeyShares[len(e.KeyShares) - $k + j].Data)
 //@   loop 0 invariant DEFECT_C32_keyshare_data: $k >= 1 && e.KeyShares[len(e.KeyShares) - 1].Group != 0x0a0a ==> isnil(e.KeyShares[len(e.KeyShares) - 1].Data)
 //@   at before call Errorf#0: assert unknown: !jsGroupKnown(clientShare.Group)
 
@@ -170,3 +171,340 @@ package tls
 //@   ensures tech: id == utlsExtensionECH ==> istype(ret, *GREASEEncryptedClientHelloExtension)
 //@   ensures treneg: id == extensionRenegotiationInfo ==> istype(ret, *RenegotiationInfoExtension) && ret.(*RenegotiationInfoExtension).Renegotiation == RenegotiateNever
 //@   ensures tgrease: grease16(id) ==> istype(ret, *UtlsGREASEExtension) && ret.(*UtlsGREASEExtension).Value == 0 && len(ret.(*UtlsGREASEExtension).Body) == 0
+
+// ---------------------------------------------------------------------------------------------
+// (a, continued) UnmarshalJSON methods without a loop
+
+//@ func (*SNIExtension).UnmarshalJSON
+//@   property C07 C32
+//@   pure
+//@   ensures ret == nil
+
+//@ func (*StatusRequestExtension).UnmarshalJSON
+//@   property C07 C32
+//@   pure
+//@   ensures ret == nil
+
+//@ func (*StatusRequestV2Extension).UnmarshalJSON
+//@   property C07 C32
+//@   pure
+//@   ensures ret == nil
+
+//@ func (*SCTExtension).UnmarshalJSON
+//@   property C07 C32
+//@   pure
+//@   ensures ret == nil
+
+//@ func (*ExtendedMasterSecretExtension).UnmarshalJSON
+//@   property C07 C32
+//@   pure
+//@   ensures ret == nil
+
+//@ func (*NPNExtension).UnmarshalJSON
+//@   property C07 C32
+//@   pure
+//@   ensures ret == nil
+
+//@ func (*FakeChannelIDExtension).UnmarshalJSON
+//@   property C07 C32
+//@   pure
+//@   ensures ret == nil
+
+//@ func (*SessionTicketExtension).UnmarshalJSON
+//@   property C07 C32
+//@   pure
+//@   ensures ret == nil
+
+//@ func (*UtlsPreSharedKeyExtension).UnmarshalJSON
+//@   property C07 C32
+//@   pure
+//@   ensures ret == nil
+
+// as the raw import ((*RenegotiationInfoExtension).Write, clause `mode`)
+//@ func (*RenegotiationInfoExtension).UnmarshalJSON
+//@   property C07 C32
+//@   requires e != nil
+//@   modifies e.Renegotiation
+//@   ensures ret == nil
+//@   ensures mode: e.Renegotiation == RenegotiateOnceAsClient
+
+// The following store decoded members unchanged; only safety is stated (the decoded local cannot be
+// named in an ensures clause).
+//@ func (*ALPNExtension).UnmarshalJSON
+//@   property C07 C32
+//@   requires e != nil
+
+//@ func (*ApplicationSettingsExtension).UnmarshalJSON
+//@   property C07 C32
+//@   requires e != nil
+
+//@ func (*ApplicationSettingsExtensionNew).UnmarshalJSON
+//@   property C07 C32
+//@   requires e != nil
+
+//@ func (*CookieExtension).UnmarshalJSON
+//@   property C07 C32
+//@   requires e != nil
+
+//@ func (*FakeRecordSizeLimitExtension).UnmarshalJSON
+//@   property C07 C32
+//@   requires e != nil
+
+//@ func (*FakePreSharedKeyExtension).UnmarshalJSON
+//@   property C07 C32
+//@   requires e != nil
+
+// extension name through dicttls.DictExtTypeNameIndexed, unknown name ==> error
+//@ func (*GenericExtension).UnmarshalJSON
+//@   property C07 C32
+//@   requires e != nil
+//@   at before call Errorf#0: assert unknown: !has(dicttls.DictExtTypeNameIndexed, genericExtension.Name)
+
+// id 0 (absent) is accepted and changes nothing; a non-GREASE id is refused
+//@ func (*UtlsGREASEExtension).UnmarshalJSON
+//@   property C07 C32
+//@   requires e != nil
+//@   at before call New#0: assert notgrease: jsonObj.Id != 0 && !grease16(jsonObj.Id)
+
+// "len": 0 or absent -> the BoringSSL padding policy (as the raw import), otherwise a fixed length
+//@ func (*UtlsPaddingExtension).UnmarshalJSON
+//@   property C07 C32
+//@   requires e != nil
+//@   ensures noerr_after_decode: ret == nil ==> e.GetPaddingLen != nil || (e.WillPad && e.PaddingLen != 0)
+//@   ensures DEFECT_C07_padding_len: ret == nil && e.GetPaddingLen == nil ==> e.PaddingLen >= 0
+//@   note DEFECT_C07_padding_len: "len" is decoded as uint and converted with int(); {"name":"padding","len":18446744073709551615} gives PaddingLen == -1 with WillPad, which violates the precondition `nonneg` of (*UtlsPaddingExtension).Read: marshaling the applied spec panics (index out of range [3] with length 3), confirmed on the real code
+
+// ---------------------------------------------------------------------------------------------
+// (b) u_clienthello_json.go
+
+// Where the target of json.Unmarshal has a nameable type (*[]string, *ClientHelloSpecJSONUnmarshaler) the
+// decoded document IS nameable in an ensures clause as *(callarg(Unmarshal, 0, 1).(*T)), and the relation
+// document -> result is stated as postconditions (count / known / order) in addition to the invariants.
+// cipher suite names through dicttls.DictCipherSuiteNameIndexed, "GREASE" -> placeholder
+//@ spec jsSuiteKnown(s) = s == "GREASE" || has(dicttls.DictCipherSuiteNameIndexed, s)
+//@ spec jsSuiteOf(s) = ite(s == "GREASE", 0x0a0a, dicttls.DictCipherSuiteNameIndexed[s])
+
+//@ func (*CipherSuitesJSONUnmarshaler).UnmarshalJSON
+//@   property C07 C32
+//@   requires c != nil
+//@   loop 0 invariant -1 <= $rangeindex && $rangeindex < len(cipherSuiteNames)
+//@   loop 0 invariant known: forall j in 0..$k: jsSuiteKnown(cipherSuiteNames[j])
+//@   loop 0 invariant len(c.cipherSuites) >= $k
+//@   loop 0 invariant order: forall j in 0..$k: c.cipherSuites[len(c.cipherSuites) - $k + j] == jsSuiteOf(cipherSuiteNames[j])
+//@   at before call Errorf#0: assert unknown: !jsSuiteKnown(name)
+//@   ensures count: ret == nil ==> len(c.cipherSuites) >= len(*(callarg(Unmarshal, 0, 1).(*[]string)))
+//@   ensures known: ret == nil ==> forall j in 0..len(*(callarg(Unmarshal, 0, 1).(*[]string))): jsSuiteKnown((*(callarg(Unmarshal, 0, 1).(*[]string)))[j])
+//@   ensures order: ret == nil ==> forall j in 0..len(*(callarg(Unmarshal, 0, 1).(*[]string))): c.cipherSuites[len(c.cipherSuites) - len(*(callarg(Unmarshal, 0, 1).(*[]string))) + j] == jsSuiteOf((*(callarg(Unmarshal, 0, 1).(*[]string)))[j])
+
+//@ func (*CipherSuitesJSONUnmarshaler).CipherSuites
+//@   property C07 C32
+//@   requires DEFECT_C07_absent_member: c != nil
+//@   pure
+//@   ensures ret == c.cipherSuites
+
+//@ func (*CompressionMethodsJSONUnmarshaler).UnmarshalJSON
+//@   property C07 C32
+//@   requires c != nil
+//@   loop 0 invariant -1 <= $rangeindex && $rangeindex < len(compressionMethodNames)
+//@   loop 0 invariant known: forall j in 0..$k: has(dicttls.DictCompMethNameIndexed, compressionMethodNames[j])
+//@   loop 0 invariant len(c.compressionMethods) >= $k
+//@   loop 0 invariant order: forall j in 0..$k: c.compressionMethods[len(c.compressionMethods) - $k + j] == dicttls.DictCompMethNameIndexed[compressionMethodNames[j]]
+//@   at before call Errorf#0: assert unknown: !has(dicttls.DictCompMethNameIndexed, name)
+//@   ensures count: ret == nil ==> len(c.compressionMethods) >= len(*(callarg(Unmarshal, 0, 1).(*[]string)))
+//@   ensures known: ret == nil ==> forall j in 0..len(*(callarg(Unmarshal, 0, 1).(*[]string))): has(dicttls.DictCompMethNameIndexed, (*(callarg(Unmarshal, 0, 1).(*[]string)))[j])
+//@   ensures order: ret == nil ==> forall j in 0..len(*(callarg(Unmarshal, 0, 1).(*[]string))): c.compressionMethods[len(c.compressionMethods) - len(*(callarg(Unmarshal, 0, 1).(*[]string))) + j] == dicttls.DictCompMethNameIndexed[(*(callarg(Unmarshal, 0, 1).(*[]string)))[j]]
+
+//@ func (*CompressionMethodsJSONUnmarshaler).CompressionMethods
+//@   property C07 C32
+//@   requires DEFECT_C07_absent_member: c != nil
+//@   pure
+//@   ensures ret == c.compressionMethods
+
+// a fresh copy of the list, same extensions in the same order
+//@ func (*TLSExtensionsJSONUnmarshaler).Extensions
+//@   property C07 C32
+//@   requires DEFECT_C07_absent_member: e != nil
+//@   modifies nothing
+//@   ensures len: len(ret) == len(e.extensions) && fresh(ret)
+//@   ensures order: forall j in 0..len(ret): val(ret[j]) == val(e.extensions[j])
+//@   loop 0 invariant -1 <= $rangeindex && $rangeindex < len(e.extensions)
+//@   loop 0 invariant len(exts) == $k && fresh(exts)
+//@   loop 0 invariant forall j in 0..$k: val(exts[j]) == val(e.extensions[j])
+
+// A JSON document may leave out "cipher_suites", "compression_methods" or "extensions" (or give null):
+// encoding/json then leaves the corresponding *...JSONUnmarshaler member nil and the getters above are
+// called with a nil receiver.  The three preconditions DEFECT_C07_absent_member cannot be established
+// here for an arbitrary receiver: (&ClientHelloSpec{}).UnmarshalJSON([]byte("{}")) panics with a nil
+// pointer dereference (confirmed on the real code).
+//@ func (*ClientHelloSpecJSONUnmarshaler).ClientHelloSpec
+//@   property C07 C32
+//@   requires chsju != nil
+//@   modifies nothing
+//@   ensures suites: chsju.CipherSuites != nil ==> ret.CipherSuites == chsju.CipherSuites.cipherSuites
+//@   ensures comp: chsju.CompressionMethods != nil ==> ret.CompressionMethods == chsju.CompressionMethods.compressionMethods
+//@   ensures exts: chsju.Extensions != nil ==> len(ret.Extensions) == len(chsju.Extensions.extensions)
+//@   ensures absent: (chsju.CipherSuites == nil ==> isnil(ret.CipherSuites)) && (chsju.CompressionMethods == nil ==> isnil(ret.CompressionMethods)) && (chsju.Extensions == nil ==> isnil(ret.Extensions))
+//@   ensures vers: ret.TLSVersMin == chsju.TLSVersMin && ret.TLSVersMax == chsju.TLSVersMax
+
+//@ func (*ClientHelloSpec).UnmarshalJSON
+//@   property C07 C32
+//@   requires chs != nil
+//@   ensures suites: ret == nil ==> chs.CipherSuites == (callarg(Unmarshal, 0, 1).(*ClientHelloSpecJSONUnmarshaler)).CipherSuites.cipherSuites
+//@   ensures comp: ret == nil ==> chs.CompressionMethods == (callarg(Unmarshal, 0, 1).(*ClientHelloSpecJSONUnmarshaler)).CompressionMethods.compressionMethods
+//@   ensures exts: ret == nil ==> len(chs.Extensions) == len((callarg(Unmarshal, 0, 1).(*ClientHelloSpecJSONUnmarshaler)).Extensions.extensions)
+//@   ensures vers: ret == nil ==> chs.TLSVersMin == (callarg(Unmarshal, 0, 1).(*ClientHelloSpecJSONUnmarshaler)).TLSVersMin && chs.TLSVersMax == (callarg(Unmarshal, 0, 1).(*ClientHelloSpecJSONUnmarshaler)).TLSVersMax
+
+//@ func (*tlsExtensionJSONAccepter).UnmarshalJSON
+//@   property C07 C32
+//@   requires t != nil
+
+// writes a warning to stderr and returns a fresh GenericExtension with the id and no data
+//@ func genericExtension
+//@   property C07 C32
+//@   modifies nothing
+//@   assume-pure Fprint Sprintf
+//@   ensures ret != nil && fresh(ret) && istype(ret, *GenericExtension)
+//@   ensures id: ret.(*GenericExtension).Id == id && len(ret.(*GenericExtension).Data) == 0
+
+// The "extensions" array: one extension object per JSON element, in the order of the document (loop 0),
+// then every object decodes its own element (loop 1: json.Unmarshal calls the UnmarshalJSON methods
+// specified above).  Names go through dicttls.DictExtTypeNameIndexed, "GREASE" gives a
+// *UtlsGREASEExtension, an unknown name or an id without JSON support is an error.
+//@ func (*TLSExtensionsJSONUnmarshaler).UnmarshalJSON
+//@   property C07 C32
+//@   requires e != nil
+//@   loop 0 invariant -1 <= $rangeindex && $rangeindex < len(accepters)
+//@   loop 0 invariant count: len(exts) == $k && fresh(exts)
+//@   loop 0 invariant nonnil: forall j in 0..$k: exts[j] != nil
+//@   loop 0 invariant grease: forall j in 0..$k: accepters[j].extNameOnly.Name == "GREASE" ==> istype(exts[j], *UtlsGREASEExtension)
+//@   loop 0 invariant known: forall j in 0..$k: accepters[j].extNameOnly.Name != "GREASE" ==> has(dicttls.DictExtTypeNameIndexed, accepters[j].extNameOnly.Name)
+//@   at before call Errorf#0: assert unknown: accepter.extNameOnly.Name != "GREASE" && !has(dicttls.DictExtTypeNameIndexed, accepter.extNameOnly.Name)
+//@   loop 1 invariant -1 <= $rangeindex && $rangeindex < len(exts)
+//@   loop 1 invariant len(exts) == len(accepters)
+//@   at after call Unmarshal#1: assume jsonframe: len(accepters) == len(exts)
+//@   note jsonframe: json.Unmarshal(data, ext) writes only through ext; its assumed contract has no frame, so the local slice `accepters` (address-taken) would be havocked by the call: this listed assumption states that its length is unchanged
+//@   note LIMIT_json_frame is true of the code but NOT provable with the assumed contract of json.Unmarshal: `accepters` is re-read from its (address-taken) variable in every iteration of loop 1 after json.Unmarshal(.., ext) havocked the whole heap; it needs a frame for json.Unmarshal (writes only objects reachable from v), which cannot be written for a parameter of type `any`. inv-init of it is proved (one extension per element after loop 0), inv-keep times out, the bounds check of accepters[idx] depends on it.
+
+// ---------------------------------------------------------------------------------------------
+// (c) import of a tlsfingerprint.io record (map of byte strings)
+
+// Panic-freedom for an ARBITRARY map (only `chs != nil`): every data[...] member is arbitrary bytes or
+// absent, the extension decoders (interface call extWriter.Write, no interface contract: whole-heap
+// havoc) are arbitrary.  ExtensionFromID's contract discharges the two unchecked type assertions
+// extWriter.(*ApplicationSettingsExtension) / (*ApplicationSettingsExtensionNew).
+// DEFECT_C07_keyshare_chunk: the "key_share" member is consumed in chunks of 4 bytes (group, length)
+// without checking that a whole chunk is left: the invariant "at the loop head either all bytes are
+// consumed or 4 more are available" is what data["key_share"][i:i+4] and data["key_share"][i+3] need,
+// and it does not hold for a length that is not a multiple of 4 (e.g. {0, 29, 0}): slice bounds out of
+// range [:4] with capacity 3, confirmed on the real code.
+//@ func (*ClientHelloSpec).ImportTLSClientHello
+//@   property C07 C06
+//@   requires chs != nil
+//@   assume-pure Printf
+//@   loop 0 invariant -1 <= $rangeindex && $rangeindex < len(tlsExtensionTypes)
+//@   loop 1 invariant 0 <= i
+//@   loop 1 invariant i % 4 == 0 && len(data["key_share"]) % 4 == 0
+//@   loop 1 invariant DEFECT_C07_keyshare_chunk: i >= len(data["key_share"]) || i + 4 <= len(data["key_share"])
+//@   loop 2 invariant 0 <= j
+
+//@ func (*ClientHelloSpec).ImportTLSClientHelloFromJSON
+//@   property C07
+//@   requires chs != nil
+
+// ---------------------------------------------------------------------------------------------
+// (d) raw-bytes import drivers (u_common.go)
+
+// cipher_suites<..>: big-endian pairs in order, GREASE values become the placeholder (ungrease16 is
+// defined in verif_contracts_write.go); an odd length is an error and leaves the spec alone.
+// The cursor `s` is named through callarg(ReadUint16, 0, 0) (= &s): the plain name resolves to a stale
+// snapshot of the initial value because every address-taking use of s lies inside the loop body.
+//@ func (*ClientHelloSpec).ReadCipherSuites
+//@   property C06 C07
+//@   requires chs != nil
+//@   modifies chs.CipherSuites
+//@   ensures accept: ret == nil <==> len(b) % 2 == 0
+//@   ensures nerr: ret != nil ==> chs.CipherSuites == old(chs.CipherSuites)
+//@   ensures len: ret == nil ==> len(chs.CipherSuites) == len(b) / 2 && fresh(chs.CipherSuites)
+//@   ensures elems: ret == nil ==> forall j in 0..len(b)/2: chs.CipherSuites[j] == ungrease16(b[2*j]*256 + b[2*j+1])
+//@   ensures input: unchanged(b)
+//@   loop 0 invariant arr(*callarg(ReadUint16, 0, 0)) == arr(b) && off(*callarg(ReadUint16, 0, 0)) == off(b) + 2*len(cipherSuites)
+//@   loop 0 invariant len(*callarg(ReadUint16, 0, 0)) == len(b) - 2*len(cipherSuites) && len(*callarg(ReadUint16, 0, 0)) >= 0
+//@   loop 0 invariant fresh(cipherSuites)
+//@   loop 0 invariant forall j in 0..len(cipherSuites): cipherSuites[j] == ungrease16(b[2*j]*256 + b[2*j+1])
+
+// the compression methods are taken as they are (the slice ALIASES the input)
+//@ func (*ClientHelloSpec).ReadCompressionMethods
+//@   property C06 C07
+//@   requires chs != nil
+//@   modifies chs.CompressionMethods
+//@   ensures ret == nil && chs.CompressionMethods == compressionMethods
+
+// extensions<..> of { type(2), data<0..2^16-1> }: the extensions the spec already had are kept (prefix),
+// everything appended is a non-nil interface holding a non-nil pointer (FromRaw relies on it), for every
+// input (safety).  The decoders are reached through the interface call extWriter.Write; its frame is the
+// union of the write effects of all implementations in the module (effect analysis of the generator).
+//@ func (*ClientHelloSpec).ReadTLSExtensions
+//@   property C06 C07
+//@   let n0 = len(chs.Extensions)
+//@   requires chs != nil
+//@   ensures grow: len(chs.Extensions) >= n0
+//@   ensures prefix: forall j in 0..n0: chs.Extensions[j] == old(chs.Extensions[j])
+//@   ensures nonnil: forall j in n0..len(chs.Extensions): chs.Extensions[j] != nil
+//@   ensures nonnilptr: forall j in n0..len(chs.Extensions): val(chs.Extensions[j]) != 0
+//@   loop 0 invariant len(chs.Extensions) >= n0
+//@   loop 0 invariant forall j in 0..n0: chs.Extensions[j] == old(chs.Extensions[j])
+//@   loop 0 invariant forall j in n0..len(chs.Extensions): chs.Extensions[j] != nil
+//@   loop 0 invariant forall j in n0..len(chs.Extensions): val(chs.Extensions[j]) != 0
+// NOT stated (generator limits, see the report): "one spec extension per wire extension, in wire order"
+// relative to extPos-style offsets.  The cursor `extensions` is a *cryptobyte.String local; the
+// interface call extWriter.Write is summarised by the union of the write effects of all decoders PER
+// HEAP COMPONENT (not per object), and the decoders advance cursors of the same component (their own
+// locals), so the caller's cursor is havocked at every decoded extension: the invariants
+//   off(extensions) + len(extensions) == off(b) + len(b),  extWalk(b) ==> off(extensions) == off(b) + extPos(len(chs.Extensions) - n0)
+// are proved on the blunt-mimicry back edge and time out on the back edge through extWriter.Write.
+
+// FromRaw: record header (5) + handshake header (4) + version (2) + random (32) + session id + cipher
+// suites + compression methods [+ extensions].  The record length, the handshake length and the bytes
+// after the extension block are NOT checked (framing states what is).  sid/cs/cm: the three length
+// fields.  Without an extension block everything about the result is stated (noext_*); with one,
+// ReadTLSExtensions (no frame, see above) leaves only the input-related facts.
+//@ func (*ClientHelloSpec).FromRaw
+//@   property C06 C07
+//@   let sid = raw[43]
+//@   let cs = raw[44+sid]*256 + raw[45+sid]
+//@   let cm = raw[46+sid+cs]
+//@   let end = 47 + sid + cs + cm
+//@   let rtype = raw[0]
+//@   let htype = raw[5]
+//@   note cover:return9 (u_common.go:548, `return err` after ReadCompressionMethods) is dead: ReadCompressionMethods always returns nil
+//@   ensures nilrecv: chs == nil ==> ret != nil
+//@   ensures framing: ret == nil ==> len(raw) >= 44 && len(raw) >= 46 + sid && len(raw) >= 47 + sid + cs && len(raw) >= end && rtype == 22 && htype == 1 && cs % 2 == 0
+//@   ensures extblock: ret == nil && len(raw) > end ==> len(raw) >= end + 2 && len(raw) >= end + 2 + (old(raw[end])*256 + old(raw[end+1]))
+//@   ensures noext_ok: chs != nil && len(raw) >= 44 && len(raw) >= 46 + sid && len(raw) == end && rtype == 22 && htype == 1 && cs % 2 == 0 ==> ret == nil
+//@   ensures noext_vers: ret == nil && len(raw) == end ==> chs.TLSVersMin == raw[1]*256 + raw[2] && chs.TLSVersMax == raw[9]*256 + raw[10]
+//@   ensures noext_suites: ret == nil && len(raw) == end ==> len(chs.CipherSuites) == cs / 2 && forall j in 0..cs/2: chs.CipherSuites[j] == ungrease16(raw[46+sid+2*j]*256 + raw[47+sid+2*j])
+//@   ensures noext_comp: ret == nil && len(raw) == end ==> chs.CompressionMethods == raw[47+sid+cs:end]
+//@   ensures noext_exts: ret == nil && len(raw) == end ==> len(chs.Extensions) == 0
+//@   loop 0 invariant -1 <= $rangeindex && $rangeindex < len(chs.Extensions)
+
+// AlwaysAddPadding: afterwards the list contains a padding extension or a pre-shared-key extension
+// (only safety is stated here)
+//@ func (*ClientHelloSpec).AlwaysAddPadding
+//@   property C07
+//@   requires chs != nil
+//@   loop 0 invariant -1 <= $rangeindex && $rangeindex < len(chs.Extensions)
+
+//@ func (*Fingerprinter).RawClientHello
+//@   property C07 C06
+//@   requires f != nil
+//@   ensures either: (err != nil && clientHelloSpec == nil) || (err == nil && clientHelloSpec != nil)
+
+//@ func (*Fingerprinter).FingerprintClientHello
+//@   property C07 C06
+//@   requires f != nil
+//@   ensures either: (err != nil && clientHelloSpec == nil) || (err == nil && clientHelloSpec != nil)
+
+//@ func (*Fingerprinter).UnmarshalJSONClientHello
+//@   property C07 C32
+//@   requires f != nil
+//@   ensures either: (err != nil && clientHelloSpec == nil) || (err == nil && clientHelloSpec != nil)
